@@ -86,9 +86,10 @@ namespace
     {
         auto scope = left.data<d_with, std::shared_ptr<value_scope>>();
         auto r = right.data<d_array>();
-        if (r->size() != 2)
+        // [name, value] or [name, value, public]
+        if (r->size() != 2 && r->size() != 3)
         {
-            runtime.__logmsg(err::ExpectedArraySizeMissmatch(runtime.context_active().current_frame().diag_info_from_position(), 2, r->size()));
+            runtime.__logmsg(err::ExpectedArraySizeMissmatch(runtime.context_active().current_frame().diag_info_from_position(), 2, 3, r->size()));
             return {};
         }
         if (!r->at(0).is<t_string>())
